@@ -51,6 +51,8 @@ type Contract struct {
 	Tags     []string
 	Asserts  []AssertSpec
 	Uses     []string
+	Deterministic bool
+	Stored   []AssertSpec
 	Writes   []string
 	Opts     map[string]string
 	File     string
@@ -303,6 +305,8 @@ func (c *Contract) addClause(kw, rest, path string, line int) error {
 		c.Writes = append(c.Writes, strings.Fields(strings.ReplaceAll(rest, ",", " "))...)
 	case "pure":
 		c.HasMod = true
+	case "deterministic":
+		c.Deterministic = true
 	case "inline":
 		c.Inline = true
 	case "may-panic":
@@ -323,9 +327,13 @@ func (c *Contract) addClause(kw, rest, path string, line int) error {
 		if len(f) < 3 {
 			return fmt.Errorf("loop <k> invariant|decreases <expr>")
 		}
-		k, err := strconv.Atoi(f[0])
-		if err != nil {
-			return err
+		k := -1 // "loop * invariant e": every loop of the function (and of every implementation, for iface contracts)
+		if f[0] != "*" {
+			var err error
+			k, err = strconv.Atoi(f[0])
+			if err != nil {
+				return err
+			}
 		}
 		ls := c.Loops[k]
 		if ls == nil {
@@ -347,6 +355,28 @@ func (c *Contract) addClause(kw, rest, path string, line int) error {
 		default:
 			return fmt.Errorf("unknown loop clause %q", f[1])
 		}
+	case "stored":
+		// stored at "anchor" expr: the value stored by the statement on the anchored source line equals expr
+		if !strings.HasPrefix(rest, "at ") {
+			return fmt.Errorf("stored at \"anchor\" expr")
+		}
+		r := strings.TrimSpace(rest[3:])
+		if !strings.HasPrefix(r, "\"") {
+			return fmt.Errorf("anchor string expected")
+		}
+		j := strings.Index(r[1:], "\"")
+		if j < 0 {
+			return fmt.Errorf("unterminated anchor")
+		}
+		anchor := r[1 : 1+j]
+		cl, err := mkClause(strings.TrimSpace(r[j+2:]), path, line, true)
+		if err != nil {
+			return err
+		}
+		if cl.Label == "" {
+			cl.Label = fmt.Sprintf("s%d", len(c.Stored)+1)
+		}
+		c.Stored = append(c.Stored, AssertSpec{Anchor: anchor, C: cl})
 	case "apply":
 		// apply at "anchor" lemma(args): instantiate a proven lemma at a program point
 		if !strings.HasPrefix(rest, "at ") {
